@@ -355,14 +355,14 @@ PROPS = {
         "level_text": "FULL for the gate structure: every mutation resolver and the upload endpoint, as extracted from the source on this run, "
                       "is a straight-line program in which auth.UserFromCtx is called, and its error returned at once, before any call "
                       "outside a read-only allowlist (gen_gated); every Mutation field of the served schema has such a resolver "
-                      "(gen_schema_covered); for every gated program, whichever calls fail, a run without a user changes nothing and never "
+                      "(gen_schema_covered) and hands the user obtained from the gate to every mutating call but Commit (gen_authored); for every gated program, whichever calls fail, a run without a user changes nothing and never "
                       "completes (no_user_no_change, no_user_refused), and with a user performs exactly its mutations (with_user). The "
                       "served API (gqlgen handler and upload handler, with and without auth.Middleware) is run against a real repository: "
                       "every introspected mutation, valid and invalid arguments.",
         "level_note": "Trusted: Lean kernel, the extractor (its read-only allowlist of callee names is the modelled part: a callee named there "
                       "is assumed not to change the repository), harness. The correspondence run checks that assumption from outside: refs, "
                       "object count, cache content before/after every refused request. gqlgen's dispatch is exercised, not modelled.",
-        "required_theorems": ["gate_general", "no_user_no_change", "no_user_refused", "with_user", "gen_gated", "gen_schema_covered"],
+        "required_theorems": ["gate_general", "no_user_no_change", "no_user_refused", "with_user", "gen_gated", "gen_schema_covered", "gen_authored"],
         "slices": ["C17"],
         "rule": "in-process graphql.NewHandler and NewGitUploadFileHandler over a go-git repository with a user identity and bugs; every "
                 "mutation field found by introspection x {no user, user} x {valid, invalid arguments}; refs, object files and cache "
